@@ -8,8 +8,10 @@ if [ -n "$(git status --porcelain --untracked-files=no)" ]; then echo "repo not 
 git apply "$patch" || { echo "patch does not apply"; exit 2; }
 cd /verif
 for c in "$@"; do
-  VERIF_SEED=${VERIF_SEED:-0} ./check "$c" --tier quick 2>&1 | grep -E "^\[C|VIOLATION|KNOWN|INFRA" | cut -c1-220 | head -8
-  echo "exit($c)=$?"
+  VERIF_SEED=${VERIF_SEED:-0} ./check "$c" --tier quick > /tmp/seedrun_$c.log 2>&1; rc=$?
+  grep -E "VIOLATION|INFRA" /tmp/seedrun_$c.log | cut -c1-200 | head -3
+  grep -E "^\[C|KNOWN" /tmp/seedrun_$c.log | cut -c1-200
+  echo "exit($c)=$rc"
 done
 git -C /repo checkout -- .
 git -C /repo status --porcelain --untracked-files=no | head -3
